@@ -83,6 +83,7 @@ type JobResult struct {
 	Samples      []string     `json:"samples,omitempty"`
 	Outputs      []string     `json:"outputs,omitempty"`
 	MapOrders    string       `json:"map_orders,omitempty"`
+	CutMissing   []string     `json:"cut_missing,omitempty"`
 }
 
 type Exec struct {
@@ -95,6 +96,7 @@ type Exec struct {
 	funcs   map[string]bool
 	repoMod string
 	cuts    map[string]bool
+	cutWithin map[string]string
 	opaqueT types.Type
 	extT    types.Type
 	tokens  map[string]*Opaque
@@ -730,7 +732,7 @@ func (ex *Exec) jump(st *State, fr *Frame, to *ssa.BasicBlock) {
 	// loop handling: count arrivals at blocks through back edges
 	if to.Index <= from.Index && to.Dominates(from) {
 		key := fmt.Sprintf("%s#%d", fr.fn.String(), to.Index)
-		if ex.cuts[key] {
+		if ex.cuts[key] && ex.cutApplies(st, key) {
 			ex.cutAt(st, fr, from, to, key)
 		}
 		fr.visits[to.Index]++
@@ -749,6 +751,21 @@ func (ex *Exec) jump(st *State, fr *Frame, to *ssa.BasicBlock) {
 				ex.recordViolation(st, "unwind", nil, msg)
 			}
 			ex.endPath("unwind")
+		}
+	}
+	if len(ex.cuts) > 0 && !(to.Index <= from.Index && to.Dominates(from)) {
+		if ex.cuts[fmt.Sprintf("%s#%d", fr.fn.String(), to.Index)] {
+			// first arrival at a cut loop head: remember the cursor of every reader object
+			snap := map[int]*Term{}
+			for id, o := range st.heap {
+				if rd, ok := o.ext.(*readerExt); ok {
+					snap[id] = rd.pos
+				}
+			}
+			if fr.cutSeen == nil {
+				fr.cutSeen = map[int]map[int]*Term{}
+			}
+			fr.cutSeen[to.Index] = snap
 		}
 	}
 	fr.prev = from
@@ -785,6 +802,20 @@ func firstPos(b *ssa.BasicBlock) token.Pos {
 	return token.NoPos
 }
 
+// cutApplies: a cut restricted to "within f" only applies while f is on the call stack.
+func (ex *Exec) cutApplies(st *State, key string) bool {
+	w, ok := ex.cutWithin[key]
+	if !ok {
+		return true
+	}
+	for _, f := range st.frames {
+		if f.fn.String() == w {
+			return true
+		}
+	}
+	return false
+}
+
 // cutAt implements the inductive step for an input-consuming loop: at the back edge the path ends
 // after checking that some loop-carried measure strictly decreased.
 func (ex *Exec) cutAt(st *State, fr *Frame, from, to *ssa.BasicBlock, key string) {
@@ -812,6 +843,14 @@ func (ex *Exec) cutAt(st *State, fr *Frame, from, to *ssa.BasicBlock, key string
 				n := newv.(*Term)
 				decs = append(decs, mkCmp(OpUlt, n, o))
 				descr = append(descr, phi.Comment)
+			}
+		}
+	}
+	for id, old := range fr.cutSeen[to.Index] {
+		if o, ok := st.heap[id]; ok {
+			if rd, ok := o.ext.(*readerExt); ok {
+				decs = append(decs, mkAnd(mkCmp(OpUlt, old, rd.pos), mkCmp(OpUle, rd.pos, rd.src.len)))
+				descr = append(descr, "remaining octets of the reader")
 			}
 		}
 	}
